@@ -25,11 +25,11 @@ theorem sharded_refines_flat {R : Type} (I : RegImpl R) (hI : I.Lawful) (cfg : C
 
 theorem subscribe_spec {R : Type} (I : RegImpl R) (hI : I.Lawful) (cfg : Config)
     (rec : Frame → St R → Action → St R) (fr : Frame) (s : St R)
-    (ty hid : Nat) (once async seq : Bool) (filt : Option (Nat × Nat)) (body : Nat) :
-    let s' := step I cfg rec fr s (.subscribe ty hid once async seq filt body)
-    I.get s'.reg ty = I.get s.reg ty ++ [⟨s.c.nextRid, ty, hid, once, async, seq, filt, body⟩] ∧
+    (ty hid : Nat) (once async seq : Bool) (filt : Option (Nat × Nat)) (body : Nat) (fcancel : Bool) :
+    let s' := step I cfg rec fr s (.subscribe ty hid once async seq filt body fcancel)
+    I.get s'.reg ty = I.get s.reg ty ++ [⟨s.c.nextRid, ty, hid, once, async, seq, filt, body, fcancel⟩] ∧
     (∀ t, t ≠ ty → I.get s'.reg t = I.get s.reg t) ∧ s'.c.trace = s.c.trace :=
-  Ebu.Bus.subscribe_spec I hI cfg rec fr s ty hid once async seq filt body
+  Ebu.Bus.subscribe_spec I hI cfg rec fr s ty hid once async seq filt body fcancel
 
 /-- `Unsubscribe` removes exactly one registration — the first one of type `ty` whose handler
 has the given code pointer — and reports an error iff there is none -/
